@@ -217,11 +217,16 @@ def build(spec, phases_first=False):
         else:
             par = c["p"] if len(c["p"]) > 1 or c.get("plist") else c["p"][0]
             s.add_comp(par, comp=comp, group=c.get("g", ""), rail=c.get("r", ""))
+    if spec.get("pc_first"):  # component configurations before the system phases are defined
+        for c in spec["comps"]:
+            if c.get("pc") is not None:
+                s.set_comp_phases(c["n"], copy.deepcopy(c["pc"]))
     if spec.get("phases"):
         s.set_sys_phases(dict(spec["phases"]))
-    for c in spec["comps"]:
-        if c.get("pc") is not None:
-            s.set_comp_phases(c["n"], copy.deepcopy(c["pc"]))
+    if not spec.get("pc_first"):
+        for c in spec["comps"]:
+            if c.get("pc") is not None:
+                s.set_comp_phases(c["n"], copy.deepcopy(c["pc"]))
     return s
 
 
@@ -469,7 +474,8 @@ def pc_options(comp, phases, full=True):
     subs = nonempty_subsets(names) if full else [[names[0]], [names[-1]]]
     k = comp["k"]
     if k in PHASE_LIST_KINDS:
-        return [None] + subs
+        # a list naming only a phase the system does not define: the component is listed for no phase, i.e. inactive in all of them
+        return [None] + subs + ([["zz"]] if full else [])
     if k in LOADS:
         key = {"PLoad": "pwr", "ILoad": "ii", "RLoad": "rs"}[k]
         out = [None] + [{p: _r(abs(comp["a"][key]) * _PHMULT[p]) for p in s} for s in subs]
@@ -477,6 +483,8 @@ def pc_options(comp, phases, full=True):
             z = {p: _r(abs(comp["a"][key]) * _PHMULT[p]) for p in names}
             z[names[0]] = 0.0
             out.append(z)
+            if full:  # a table naming only an undefined phase: every defined phase is absent from it -> sleep value everywhere
+                out.append({"zz": _r(abs(comp["a"][key]) * 0.77)})
         return out
     return [None]
 
